@@ -216,7 +216,7 @@ def run(chk):
     init = idx.func(nnm.REL, f"{nnm.CLS}.__init__")
     sites = {}
     for fq in [f"{nnm.CLS}.__init__"] + [f"{nnm.CLS}.{b}" for b in reg["bet"]]:
-        fdx = idx.func(nnm.REL, fq)
+        fdx = idx.func_x(nnm.REL, fq)  # (helpers expanded: the default may be supplied in a private helper)
         for c_ in _ast.walk(fdx):
             if isinstance(c_, _ast.Call) and ((norm(c_.func) == "kwargs.get" and c_.args and norm(c_.args[0]) in ("'lam'", '"lam"')) or
                                               (norm(c_.func) == "getattr" and len(c_.args) == 3 and norm(c_.args[1]) in ("'lam'", '"lam"'))):
